@@ -385,6 +385,13 @@ impl<'r> VGen<'r> {
             }
             10 => {
                 let c = self.exact(T::Bool, 1, d, scope);
+                // a vector of a lower kind and a bare literal of kind t as the two arms: typed (t, n) since fix c05bffa
+                if n > 1 && (t == T::Int || t == T::Float) && self.rng.chance(1, 3) {
+                    let lower = if t == T::Int { T::Bool } else { *self.rng.pick(&[T::Bool, T::Int, T::Uint]) };
+                    let v = self.exact(lower, n, d, scope);
+                    let lit = if t == T::Int { self.rng.pick(&["0", "1", "7", "2147483647"]).to_string() } else { self.rng.pick(&["0.0", "0.5", "1.5", "100.0"]).to_string() };
+                    return if self.rng.chance(1, 2) { format!("({} ? {} : {})", c, v, lit) } else { format!("({} ? {} : {})", c, lit, v) };
+                }
                 format!("({} ? {} : {})", c, self.exact(t, n, d, scope), self.exact(t, n, d, scope))
             }
             // swizzle of an expression
